@@ -53,8 +53,8 @@ def register(m):
     m("C04", "c04-k4-angle-not-erased", DM, "    expected_unit = expected_unit.subs(\"angle\", S.One)\n", "    pass\n", "K4")
     m("C04", "c04-k4-unitserror-not-valueerror", "symplyphysics/core/errors.py", "class UnitsError(ValueError)", "class UnitsError(Exception)", "K4")
     # K5
-    m("C04", "c04-k5-one-is-any", MI, "return factor in (S.Zero, S.Infinity, S.NegativeInfinity, S.NaN)", "return factor in (S.Zero, S.One, S.Infinity, S.NegativeInfinity, S.NaN)", "K5")
-    m("C04", "c04-k5-nan-missing", MI, "return factor in (S.Zero, S.Infinity, S.NegativeInfinity, S.NaN)", "return factor in (S.Zero, S.Infinity, S.NegativeInfinity)", "K5")
+    m("C04", "c04-k5-one-is-any", MI, "return (factor in (S.Zero, S.Infinity, S.NegativeInfinity, S.NaN)", "return (factor in (S.Zero, S.One, S.Infinity, S.NegativeInfinity, S.NaN)", "K5")
+    m("C04", "c04-k5-nan-missing", MI, "return (factor in (S.Zero, S.Infinity, S.NegativeInfinity, S.NaN)", "return (factor in (S.Zero, S.Infinity, S.NegativeInfinity)", "K5")
     # K6
     m("C04", "c04-k6-small-values-pass", DM, "        if is_any_dimension(scale_factor) or isinstance(arg, AnyDimension):\n            return\n\n    # HACK: this allows to treat angle type as dimensionless\n    arg =",
       "        if is_any_dimension(scale_factor) or isinstance(arg, AnyDimension) or abs(scale_factor) < 1e-30:\n            return\n\n    # HACK: this allows to treat angle type as dimensionless\n    arg =", ("K6", "K4"))
